@@ -228,6 +228,6 @@ var expectedProbes = map[string][]string{
 	"C19": {"read-error-fired", "http-transport-error", "http-non-200-status", "unreadable-file:missing", "unreadable-file:directory", "malformed-document", "fragmented-reads", "records-compared-with-reference-decode"},
 	"C12": {"repo-getsince-error", "repo-append-error", "timer-fired", "timer-fired-while-busy", "runs-compared-with-model", "idempotence-runs", "multi-worker-runs"},
 	"C13": {"window-cuts-inside-data", "asset-missing-in-repository", "asset-empty", "multi-worker-runs", "protocol-histories-checked", "data-reports-checked", "html-reports-checked"},
-	"C14": {"reports-rendered", "rows-compared-with-compute-outcome", "buffered-report-input"},
+	"C14": {"reports-rendered", "rows-compared-with-compute-outcome", "buffered-report-input", "step-response-reports-compared"},
 	"C16": {"unequal-eof", "empty-input", "eof-within-parameter-window", "model-compared"},
 }
